@@ -40,15 +40,25 @@ func main() {
 	var sets []concrete.ParamSet
 	costs, rs, ps := []uint{1, 2, 3, 6}, []int{0, 1, 2, 8}, []int{0, 1, 2, 3}
 	times, mems, ths, lens := []uint32{1, 2, 3}, []uint32{8, 16, 64, 512}, []uint8{1, 2, 4}, []uint32{4, 16, 32, 64}
+	// the first sets walk through the combinations of defaulted (0 = key omitted in the YAML) and explicit r / p, and through
+	// argon2id memory sizes that are not a multiple of 4*threads; the rest is drawn at random
+	rp := [][2]int{{0, 0}, {0, 2}, {8, 0}, {1, 2}, {0, 3}, {2, 1}, {0, 1}, {8, 3}}
+	ar := [][4]uint32{{1, 8, 1, 32}, {1, 1000, 3, 32}, {2, 65, 2, 16}, {1, 24, 3, 64}, {3, 16, 1, 4}}
 	for i := 0; i < *nsets; i++ {
 		if i%2 == 0 {
 			k := make([]byte, 32)
 			rng.Read(k)
-			sets = append(sets, concrete.ParamSet{ID: uint(i + 1), Algo: "scrypt", Cost: costs[rng.Intn(len(costs))], R: rs[rng.Intn(len(rs))],
-				P: ps[rng.Intn(len(ps))], HmacKey: k})
+			r, pp := rs[rng.Intn(len(rs))], ps[rng.Intn(len(ps))]
+			if i/2 < len(rp) {
+				r, pp = rp[i/2][0], rp[i/2][1]
+			}
+			sets = append(sets, concrete.ParamSet{ID: uint(i + 1), Algo: "scrypt", Cost: costs[rng.Intn(len(costs))], R: r, P: pp, HmacKey: k})
 		} else {
-			sets = append(sets, concrete.ParamSet{ID: uint(i + 1), Algo: "argon", Time: times[rng.Intn(len(times))], Memory: mems[rng.Intn(len(mems))],
-				Threads: ths[rng.Intn(len(ths))], Length: lens[rng.Intn(len(lens))]})
+			a := [4]uint32{times[rng.Intn(len(times))], mems[rng.Intn(len(mems))], uint32(ths[rng.Intn(len(ths))]), lens[rng.Intn(len(lens))]}
+			if i/2 < len(ar) {
+				a = ar[i/2]
+			}
+			sets = append(sets, concrete.ParamSet{ID: uint(i + 1), Algo: "argon", Time: a[0], Memory: a[1], Threads: uint8(a[2]), Length: a[3]})
 		}
 	}
 	passwords := []string{"secret", "", "pass:word\n", strings.Repeat("long", 40), "\xff\xfe bin \x00 x", "ünï", "hunter2hunter2",
